@@ -35,10 +35,10 @@ def build(run):
     return True
 
 
-def _model(path, model_args):
+def _model(path, model_args, env=None):
     with open(path, "rb") as fh:
         p = subprocess.run([os.path.join(C.BIN, "composite_model")] + list(model_args), stdin=fh,
-                           stdout=subprocess.PIPE, stderr=subprocess.STDOUT, timeout=3000)
+                           stdout=subprocess.PIPE, stderr=subprocess.STDOUT, timeout=3000, env=env)
     return p.returncode, p.stdout.decode("utf-8", "replace")
 
 
@@ -97,10 +97,17 @@ def run_families(run, fams, model_args=()):
             n = len([l for l in open(cpath) if l.strip()])
             rc, path, sc, tr = harness(["-mode", "script", "-file", cpath])
         else:
+            if run.tier == "quick":
+                n = run.scaled(n)      # anchor drift (a mirrored function changed): escalated budget, DESIGN 3.3
             rc, path, sc, tr = harness(["-mode", "batch", "-family", fam, "-n", n, "-seed", seed])
         rcm, out = _model(path, model_args)
         os.unlink(path)
-        r, cv, sm, _ = parse_model(out)
+        r, cv, sm, mm = parse_model(out)
+        if mm:
+            # MISMATCH lines of the driver in trace mode = event lines it could not parse: part of the trace was
+            # not checked at all (audit-2 L8: these lines used to be dropped)
+            run.violation("harness-failed:unparsed-events:" + fam, {"family": fam, "lines": mm[:20]},
+                          "the model driver could not parse %d event line(s) of family %s: %s" % (len(mm), fam, mm[0][:160]), True)
         if rc != 0 or rcm != 0 or "SUMMARY" not in out or len(r) != n:
             run.violation("harness-failed:" + fam, {"family": fam, "out": out[-1500:]},
                           "composite harness or model driver failed to run family %s" % fam, True)
@@ -114,14 +121,37 @@ def run_families(run, fams, model_args=()):
     return results, cover, summary, scripts, traces
 
 
-def check_a(run, args, model_args=()):
+VM_A = []   # VMCASE lines of the last check_a (extraction re-validation)
+
+
+def check_a(run, args, model_args=(), vm_stride=0):
     rc, path, _, _ = harness(args)
-    rcm, out = _model(path, model_args)
+    rcm, out = _model(path, model_args, env=C.vm_env(run.seed, vm_stride) if vm_stride else None)
     os.unlink(path)
+    VM_A[:] = [l for l in out.splitlines() if l.startswith("VMCASE")]
     _, _, summary, mism = parse_model(out)
     if rc != 0 or rcm != 0 or "SUMMARY" not in out:
         run.violation("harness-failed:" + args[1], {"out": out[-1500:]}, "check A driver failed to run", True)
     return summary, mism
+
+
+def vm_membership(run, fix11=True, fix_ms=True):
+    """Extraction re-validation of check A (membership): the sampled pairs re-evaluated by Coq's VM.  The parameters
+    record and the entry lists are printed here (independently of ocaml/composite.ml: pool4 = four children named 0..3)."""
+    pool = C.coq_list(["mkSpec %d%%N NonBlocking OnSignal RWC" % i for i in range(4)])
+    # same parameters as check A's driver (ocaml/composite.ml: pool4, fix_c09 = false, fix_c11, fix_stale = false,
+    # fix_lc = true, fix_ms = the membership test of the current code: name multisets, /repo 6a78308)
+    P = "(mkParams %s false %s false true %s)" % (pool, C.coq_bool(fix11), C.coq_bool(fix_ms))
+
+    def cf(x):
+        return C.coq_list([] if x == "-" else ["(%d%%N, 0%%N)" % int(n) for n in x.split(",")])
+    terms, exp, labels = [], [], []
+    for l in C.vm_thin(VM_A, 300, run.seed):
+        t = l.split("\t")
+        terms.append("(membership_changed %s %s %s, same_name_set %s %s %s)" % (P, cf(t[2]), cf(t[3]), P, cf(t[2]), cf(t[3])))
+        exp.append(t[4])
+        labels.append("membership old=%s new=%s" % (t[2], t[3]))
+    return C.vm_crosscheck(run, "composite-membership", ["Composite", "CompositeMon"], terms, exp, labels)
 
 
 def op_sig(script):
@@ -151,6 +181,24 @@ def has_dup_names(script):
         ns = [names[e["c"]] for e in cf]
         if len(set(ns)) < len(ns):
             return True
+    return False
+
+
+def same_name_different_object(script):
+    """The shape of the recorded finding same-name-different-object:inplace-reload: a Reload() whose new
+    configuration has the same runnable NAMES with the same multiplicities as the one in force (so that it
+    is reloaded in place) but not the same runnable OBJECTS."""
+    sc = json.loads(script)
+    names = [p["name"] for p in sc["pool"]]
+    cur = sc.get("init") or []
+    for o in sc["ops"]:
+        if o["op"] != "reload" or o.get("cb") != "some":
+            continue
+        new = o.get("cfg") or []
+        if sorted(names[e["c"]] for e in cur) == sorted(names[e["c"]] for e in new) \
+                and sorted(e["c"] for e in cur) != sorted(e["c"] for e in new):
+            return True
+        cur = new
     return False
 
 
@@ -197,6 +245,8 @@ def key_for(pid, r, script, trace=None):
         return "stale-stop-on-restarted-child"
     if pid == "C09" and v == 21 and r.get("shape") == "stop-between-setconfig-and-boot":
         return "stop-between-setconfig-and-boot"
+    if pid == "C09" and v in (20, 21) and script and same_name_different_object(script):
+        return "same-name-different-object:inplace-reload"
     if pid == "C11" and script and has_dup_names(script):
         return "duplicate-entry-names"
     sig = op_sig(script) if script else r["id"]
@@ -212,14 +262,15 @@ CLAUSES = {
     6: "a running child was not stopped after another child failed",
     7: "Run() returned an error wrapping ErrRunnableFailed, but a state observed after its return is not Error",
     10: "Reload() did not return", 11: "Reload() on a Running composite did not consult the callback",
-    12: "identity set unchanged, yet a child was stopped or started",
-    13: "identity set unchanged, but the children did not receive exactly one ReloadWithConfig(new config) each, in order",
+    12: "runnable identities unchanged (same names with the same multiplicities), yet a child was stopped or started",
+    13: "runnable identities unchanged, but the children did not receive exactly one ReloadWithConfig(new config) each, in order",
     14: "state is not Running after a successful Reload()",
-    15: "identity set changed, but a previously running child was not stopped before the first child of the new configuration started",
-    16: "identity set changed, but the children started are not exactly the new configuration",
-    17: "identity set changed, yet ReloadWithConfig/Reload was called on a child",
+    15: "runnable identities changed (as a multiset of names), but a previously running child was not stopped before the first child of the new configuration started",
+    16: "runnable identities changed, but the children started are not exactly the new configuration",
+    17: "runnable identities changed, yet ReloadWithConfig/Reload was called on a child",
     18: "failed callback, yet a child was touched", 19: "failed callback, but the state is not Error",
     30: "no Reload() in flight, but the runner does not hold the configuration most recently returned by its callback",
+    31: "at final quiescence GetChildStates() does not list the runnables of the stored configuration of any model state compatible with the trace",
     20: "Running and no reload in progress, but the running children are not exactly the configured ones",
     21: "Stop()/Reload()/Run() still blocked at final quiescence (deadlock)",
     22: "a child is still running after Run() returned",
